@@ -1,12 +1,303 @@
 // Contract harnesses for statime-csptp/src/source.rs (child module: sees private items).
+// Property C44 (CSPTP client): timestamp arithmetic is total; response matching in
+// `collect_response` (driven synchronously: the future is polled by hand with a mock socket whose
+// `recv` is immediately ready, so the real async fn body is executed, not a model of it).
 #![allow(unused_imports)]
 use super::*;
+use core::cell::RefCell;
+use crate::{CsptpConfig, InternalState};
+use core::future::Future;
+use core::pin::Pin;
+use core::sync::atomic::{AtomicU8, Ordering};
+use core::task::{Context, Waker};
+
+/// Timestamp type invariant (`Timestamp::new`): seconds < 2^48, nanos < 10^9.
+fn any_ts() -> Timestamp {
+    let s: u64 = kani::any();
+    let n: u32 = kani::any();
+    kani::assume(s < (1 << 48) && n < 1_000_000_000);
+    Timestamp::new(s, n).unwrap()
+}
+
+/// Any timestamp the wire parser hands out (what a server can make the client see).
+fn any_wire_ts() -> Timestamp {
+    let b: [u8; 10] = kani::any();
+    let r = Timestamp::deserialize(&b);
+    kani::assume(r.is_ok());
+    r.unwrap()
+}
+
+
+// ---------------------------------------------------------------- add_correction
+
+/// STATEMENT: add_correction never panics for ANY Timestamp and ANY 64-bit correction.
+#[kani::proof]
+fn c44_p_add_correction_total() {
+    let ts = any_ts();
+    let c = TimeInterval(kani::any());
+    let r = add_correction(ts, c);
+    assert!(r.nanos() < 1_000_000_000);
+    kani::cover!(c.0 < 0, "negative correction");
+}
+
+/// What does hold: for every timestamp at least 2^18 s (3 days; the largest correction is
+/// +-2^47 ns = 1.6 days) away from both ends of the 48-bit seconds range, and every 64-bit
+/// correction, add_correction does not panic and returns exactly ts + floor(correction / 2^16) ns,
+/// normalised (nanos < 10^9).
+fn add_correction_exact(ts: Timestamp) {
+    let c = TimeInterval(kani::any());
+    kani::assume(ts.seconds() >= (1 << 18) && ts.seconds() < (1 << 48) - (1 << 18));
+    let r = add_correction(ts, c);
+    let cn: i64 = c.0 >> 16;
+    let ds = r.seconds() as i64 - ts.seconds() as i64;
+    let dn = r.nanos() as i64 - ts.nanos() as i64;
+    assert!(r.nanos() < 1_000_000_000 && r.seconds() < (1 << 48));
+    assert!(ds >= -140_739 && ds <= 140_739);
+    assert!(ds * 1_000_000_000 + dn == cn);
+    kani::cover!(c.0 < 0 && r.seconds() < ts.seconds(), "borrow across the second");
+    kani::cover!(c.0 > 0 && r.seconds() > ts.seconds(), "carry across the second");
+}
+
+#[kani::proof]
+#[kani::solver(z3)]
+fn c44_tp_add_correction_exact_in_range() {
+    add_correction_exact(any_ts());
+}
+/// Same, for timestamps as the wire parser produces them (nanos may be exactly 10^9, see C41).
+#[kani::proof]
+#[kani::solver(z3)]
+fn c44_tp_add_correction_wire_ts_in_range() {
+    let ts = any_wire_ts();
+    add_correction_exact(ts);
+    kani::cover!(ts.nanos() == 1_000_000_000, "denormal nanoseconds from the wire");
+}
+
+// ---------------------------------------------------------------- convert_to_ntp
+
+const NTP_UNIX_OFFSET: u64 = 2_208_988_800; // seconds 1900-01-01 .. 1970-01-01
+const TAI_UTC: u64 = 37;
+
+/// post: never panics for any valid Timestamp; seconds = (PTP seconds + 2208988800 - 37) mod 2^32,
+/// fraction from the nanoseconds (NtpTimestamp::from_seconds_nanos_since_ntp_era, contract in C32).
+#[kani::proof]
+#[kani::solver(z3)]
+fn c44_p_convert_to_ntp_total() {
+    let ts = any_ts();
+    let r = convert_to_ntp(ts);
+    let secs = ((ts.seconds() + NTP_UNIX_OFFSET - TAI_UTC) & 0xffff_ffff) as u32;
+    // whole seconds (the fraction is from_seconds_nanos_since_ntp_era's contract, proved in C32)
+    assert!(r.truncated_second_bits(0) == NtpTimestamp::from_seconds_nanos_since_ntp_era(secs, 0));
+    // monotone within an era: one PTP second later is one NTP second later
+    kani::cover!(ts.seconds() > u32::MAX as u64, "era truncation reachable");
+}
+
+/// STATEMENT: never panics for any Timestamp the client can receive (wire-parsed).
+#[kani::proof]
+fn c44_p_convert_to_ntp_wire_ts_total() {
+    let ts = any_wire_ts();
+    let _ = convert_to_ntp(ts);
+    kani::cover!(true, "reachable");
+}
+
+/// The two compositions `run` performs on a finished measurement, over everything a server
+/// controls (response send time and both correction fields) and any local send time:
+/// convert_to_ntp(add_correction(t, c)) must not panic.
+#[kani::proof]
+fn c44_p_measurement_conversion_total() {
+    let remote_send = any_wire_ts(); // Sync.originTimestamp / FollowUp.preciseOriginTimestamp
+    let response_correction = TimeInterval(kani::any()); // header.correctionField (saturating sum)
+    let _ = convert_to_ntp(add_correction(remote_send, response_correction));
+    kani::cover!(true, "reachable");
+}
+
+// ---------------------------------------------------------------- collect_response, driven by hand
+
+const DGRAM: usize = 34 + 10 + 22; // header + Sync/FollowUp body + one CSPTP response TLV
+
+struct MockRecv {
+    out: Option<ClientRecvResult>,
+}
+impl Future for MockRecv {
+    type Output = Result<ClientRecvResult, ()>;
+    fn poll(mut self: Pin<&mut Self>, _cx: &mut Context<'_>) -> Poll<Self::Output> {
+        match self.out.take() {
+            Some(r) => Poll::Ready(Ok(r)),
+            None => Poll::Pending, // no more traffic: the real code waits (until `run`'s timeout)
+        }
+    }
+}
+struct MockSend;
+impl Future for MockSend {
+    type Output = Result<Timestamp, ()>;
+    fn poll(self: Pin<&mut Self>, _cx: &mut Context<'_>) -> Poll<Self::Output> {
+        Poll::Pending
+    }
+}
+
+/// Delivers up to `K` arbitrary datagrams of up to DGRAM bytes, then stays pending.
+struct MockSocket<const K: usize> {
+    dgrams: [[u8; DGRAM]; K],
+    lens: [usize; K],
+    stamps: [Option<Timestamp>; K],
+    next: usize,
+}
+impl<const K: usize> ClientSocket for MockSocket<K> {
+    type Error = ();
+    fn recv(&mut self, buf: &mut [u8]) -> impl Future<Output = Result<ClientRecvResult, ()>> {
+        if self.next < K {
+            let i = self.next;
+            self.next += 1;
+            buf[..DGRAM].copy_from_slice(&self.dgrams[i]);
+            MockRecv { out: Some(ClientRecvResult { bytes_read: self.lens[i], timestamp: self.stamps[i] }) }
+        } else {
+            MockRecv { out: None }
+        }
+    }
+    fn send_event(&mut self, _buf: &[u8]) -> impl Future<Output = Result<Timestamp, ()>> {
+        MockSend
+    }
+}
+
+struct NullController;
+impl SourceController for NullController {
+    fn handle_measurement(&mut self, _m: Measurement) {}
+    fn set_usable(&mut self, _u: bool) {}
+    fn desired_poll_interval(&self) -> ntp_proto::PollInterval {
+        ntp_proto::PollInterval::default()
+    }
+    fn observe(&self) -> ntp_proto::ObservableSourceTimedata {
+        ntp_proto::ObservableSourceTimedata::default()
+    }
+}
+
+fn seq_of(d: &[u8; DGRAM]) -> u16 {
+    u16::from_be_bytes([d[30], d[31]])
+}
+
+fn any_opt_ts() -> Option<Timestamp> {
+    if kani::any() { Some(any_ts()) } else { None }
+}
+
+/// One datagram. STATEMENT: a measurement is produced only from a response with the current
+/// request's domain and sequence id. Checked on the real `collect_response`:
+/// Ready(m) => the datagram's domainNumber == configured domain, sequenceId == request id, it is a
+/// one-step Sync carrying a CSPTP response TLV, it had a receive timestamp, and every field of the
+/// raw measurement is the corresponding wire field (send time passed in, receive stamp, origin
+/// timestamp octets 34..44, TLV ingress timestamp / correction, header correction).
+#[kani::proof]
+#[kani::unwind(7)]
+fn c44_tb_collect_one_datagram_matches() {
+    let manager = CsptpManager::<RefCell<InternalState>>::new(CsptpConfig::default());
+    let domain: u8 = kani::any();
+    let config = CsptpSourceConfig { domain, ..CsptpSourceConfig::default() };
+    let mut src = CsptpSource::new(ClockId::SYSTEM, ClockId::SYSTEM, config, &manager, NullController);
+    let d: [u8; DGRAM] = kani::any();
+    let len: usize = kani::any();
+    kani::assume(len <= DGRAM);
+    let stamp = any_opt_ts();
+    let sock = MockSocket::<1> { dgrams: [d], lens: [len], stamps: [stamp], next: 0 };
+    let request_id: u16 = kani::any();
+    let send_ts = any_ts();
+    let mut fut = core::pin::pin!(src.collect_response(sock, request_id, send_ts));
+    let mut cx = Context::from_waker(Waker::noop());
+    let r = fut.as_mut().poll(&mut cx);
+    if let Poll::Ready(m) = &r {
+        assert!(d[4] == domain);
+        assert!(seq_of(&d) == request_id);
+        assert!(d[0] & 0xf == 0); // Sync
+        assert!(d[6] & 2 == 0); // one-step (a two-step answer needs a second datagram)
+        assert!(len == DGRAM && u16::from_be_bytes([d[2], d[3]]) as usize == DGRAM);
+        assert!(u16::from_be_bytes([d[44], d[45]]) == 0xff01); // CSPTP response TLV
+        assert!(stamp.is_some());
+        assert!(m.request_send_time == send_ts);
+        assert!(m.response_recv_time == stamp.unwrap());
+        assert!(m.response_send_time == Timestamp::deserialize(&d[34..44]).unwrap());
+        assert!(m.request_recv_time == Timestamp::deserialize(&d[48..58]).unwrap());
+        assert!(m.request_correction.0 == i64::from_be_bytes([d[58], d[59], d[60], d[61], d[62], d[63], d[64], d[65]]));
+        assert!(m.response_correction.0 == i64::from_be_bytes([d[8], d[9], d[10], d[11], d[12], d[13], d[14], d[15]]));
+        assert!(m.status.is_none());
+    }
+    kani::cover!(r.is_ready(), "a matching one-step response yields a measurement");
+    kani::cover!(r.is_pending() && len == DGRAM && d[4] == domain && seq_of(&d) == request_id, "matching ids but otherwise unusable datagram is ignored");
+}
+
+/// Two datagrams, none of which carries BOTH the configured domain and the request's sequence id:
+/// no measurement, whatever else they contain (and no panic).
+#[kani::proof]
+#[kani::unwind(7)]
+fn c44_tb_collect_mismatch_never_used() {
+    let manager = CsptpManager::<RefCell<InternalState>>::new(CsptpConfig::default());
+    let domain: u8 = kani::any();
+    let config = CsptpSourceConfig { domain, ..CsptpSourceConfig::default() };
+    let mut src = CsptpSource::new(ClockId::SYSTEM, ClockId::SYSTEM, config, &manager, NullController);
+    let d0: [u8; DGRAM] = kani::any();
+    let d1: [u8; DGRAM] = kani::any();
+    let request_id: u16 = kani::any();
+    kani::assume(d0[4] != domain || seq_of(&d0) != request_id);
+    kani::assume(d1[4] != domain || seq_of(&d1) != request_id);
+    let l0: usize = kani::any();
+    let l1: usize = kani::any();
+    kani::assume(l0 <= DGRAM && l1 <= DGRAM);
+    let sock = MockSocket::<2> { dgrams: [d0, d1], lens: [l0, l1], stamps: [any_opt_ts(), any_opt_ts()], next: 0 };
+    let mut fut = core::pin::pin!(src.collect_response(sock, request_id, any_ts()));
+    let mut cx = Context::from_waker(Waker::noop());
+    let r = fut.as_mut().poll(&mut cx);
+    assert!(r.is_pending());
+    kani::cover!(d0[4] == domain && seq_of(&d1) == request_id, "each id matched by a different datagram");
+}
+
+/// Two-step exchange in either order (Sync with two-step flag + FollowUp, 44-byte FollowUp):
+/// Ready(m) from two datagrams => BOTH carry the configured domain and the request id, unless the
+/// measurement came from a single one-step response (then that one does).
+#[kani::proof]
+#[kani::unwind(7)]
+fn c44_tb_collect_two_step_matches() {
+    let manager = CsptpManager::<RefCell<InternalState>>::new(CsptpConfig::default());
+    let domain: u8 = kani::any();
+    let config = CsptpSourceConfig { domain, ..CsptpSourceConfig::default() };
+    let mut src = CsptpSource::new(ClockId::SYSTEM, ClockId::SYSTEM, config, &manager, NullController);
+    let d0: [u8; DGRAM] = kani::any();
+    let d1: [u8; DGRAM] = kani::any();
+    let request_id: u16 = kani::any();
+    let l0: usize = kani::any();
+    let l1: usize = kani::any();
+    kani::assume(l0 <= DGRAM && l1 <= DGRAM);
+    let s0 = any_opt_ts();
+    let s1 = any_opt_ts();
+    let sock = MockSocket::<2> { dgrams: [d0, d1], lens: [l0, l1], stamps: [s0, s1], next: 0 };
+    let send_ts = any_ts();
+    let mut fut = core::pin::pin!(src.collect_response(sock, request_id, send_ts));
+    let mut cx = Context::from_waker(Waker::noop());
+    let r = fut.as_mut().poll(&mut cx);
+    let m0 = d0[4] == domain && seq_of(&d0) == request_id;
+    let m1 = d1[4] == domain && seq_of(&d1) == request_id;
+    if let Poll::Ready(m) = &r {
+        assert!(m0 || m1);
+        assert!(m.request_send_time == send_ts);
+        let one_step0 = m0 && d0[0] & 0xf == 0 && d0[6] & 2 == 0;
+        let one_step1 = m1 && d1[0] & 0xf == 0 && d1[6] & 2 == 0;
+        if !one_step0 && !one_step1 {
+            // genuinely two-step: both datagrams are used, both must match
+            assert!(m0 && m1);
+            assert!((d0[0] & 0xf == 0 && d1[0] & 0xf == 8) || (d0[0] & 0xf == 8 && d1[0] & 0xf == 0));
+        }
+    }
+    kani::cover!(r.is_ready() && d0[0] & 0xf == 0 && d0[6] & 2 != 0, "two-step: sync then follow-up");
+    kani::cover!(r.is_ready() && d0[0] & 0xf == 8, "two-step: follow-up first");
+}
+
+/// canary: claims a correction never changes the seconds.
+#[kani::proof]
+#[kani::solver(z3)]
+fn c44_canary_correction_keeps_seconds() {
+    let ts = any_ts();
+    let c = TimeInterval(kani::any());
+    kani::assume(c.0 >= 0 && ts.seconds() < 1000);
+    assert!(add_correction(ts, c).seconds() == ts.seconds());
+}
 
 #[cfg(all(kani, test))]
 mod replay {
-    extern crate std;
-    #[allow(unused_imports)]
-    use std::{vec, vec::Vec};
     use super::*;
     include!(concat!(env!("VERIF_REPLAY_DIR"), "/statime_csptp__source.rs"));
 }
